@@ -26,12 +26,13 @@ ASSUMPTIONS = [
 def plan(tier):
     base = {"case_time_limit": 600,
             "required_classes": ["I:raw", "I:normalised", "I:real-state-complex-H", "T:thermal-prop", "T:exact", "P:exact-propagator", "X:evolve_exact",
-                                 "space:GS", "space:EX", "offset!=0", "family:pc", "family:ps", "family:vmf", "family:cmf"],
-            "required_counters": {"oracle": 600, "ratios_measured": 40}}
+                                 "space:GS", "space:EX", "offset!=0", "family:pc", "family:ps", "family:vmf", "family:cmf", "modes:repeated-frequency",
+                                 "tree", "tree-scheme:prop_and_compress_tdrk4", "tree-scheme:tdvp_ps2"],
+            "required_counters": {"oracle": 600, "ratios_measured": 40, "tree_thermal_runs": 20}}
     if tier == "quick":
         base.update({"ncases": 144, "min_nontrivial": 60})
     else:
-        base.update({"ncases": 2400, "min_nontrivial": 1200, "required_counters": {"oracle": 10000, "ratios_measured": 800}})
+        base.update({"ncases": 2400, "min_nontrivial": 1200, "required_counters": {"oracle": 10000, "ratios_measured": 800, "tree_thermal_runs": 400}})
     return base
 
 
@@ -135,12 +136,19 @@ def holstein(ctx, max_dim=1500):
         nmol = int(rng.integers(1, 4))
         mols = []
         dim = 1
+        seen, degenerate = [], False
         for _m in range(nmol):
             phs = []
             for _p in range(int(rng.integers(1, 3))):
                 w0 = float(rng.uniform(0.5, 2.0))
                 w1 = w0 if rng.random() < 0.6 else float(w0 * rng.uniform(0.7, 1.3))
                 nlev = int(rng.integers(2, 5))
+                if seen and rng.random() < 0.35:
+                    # a mode that repeats the frequency and basis size of an earlier one (other displacement)
+                    w0, w1_old, nlev = seen[int(rng.integers(0, len(seen)))]
+                    w1 = w1_old if rng.random() < 0.5 else w0
+                    degenerate = True
+                seen.append((w0, w1, nlev))
                 d = float(rng.uniform(-1.0, 1.0))
                 phs.append(Phonon([Quantity(w0), Quantity(w1)], [Quantity(0), Quantity(d)], nlev))
                 dim *= nlev
@@ -153,6 +161,8 @@ def holstein(ctx, max_dim=1500):
         j = (j + j.T) / 2
         np.fill_diagonal(j, 0)
         model = HolsteinModel(mols, j, scheme=scheme)
+        if degenerate:
+            ctx.cls("modes:repeated-frequency")
         desc = {"nmol": nmol, "scheme": scheme, "modes": [[(round(p.omega[0], 3), round(p.omega[1], 3), round(p.dis[1], 3),
                                                               p.n_phys_dim) for p in m.ph_list] for m in mols],
                 "elocalex": [round(m.elocalex, 3) for m in mols]}
@@ -326,6 +336,9 @@ def case_thermal(ctx):
 
 
 def run_case(ctx):
+    if ctx.idx % 8 == 7:
+        from rv.props import c10_tree
+        return c10_tree.run_tree_case(ctx)
     k = ctx.idx % 6
     if k in (0, 1, 2):
         case_imag(ctx)
